@@ -11,6 +11,23 @@ NumValues(v) ==
         [] v.k = "var" -> NumValues(v.v)
         [] OTHER -> 0
 NumValuesSeq(vs) == SumSeq([i \in DOMAIN vs |-> NumValues(vs[i])], 1)
+\* number of wire value nodes that decoding v : t at t2 does not materialise (they are skipped):
+\* everything read at reserved, the payload of an option whose coercion fails, surplus record fields
+RECURSIVE NumSkipped(_, _, _, _, _)
+NumSkipped(e, S, v, t, t2) ==
+  LET x == N(e, t)
+      y == N(e, t2)
+  IN CASE y.k = "reserved" -> IF x.k = "reserved" THEN 0 ELSE NumValues(v)
+       [] y.k = "opt" ->
+            IF x.k \in {"null", "reserved"} THEN 0
+            ELSE IF x.k = "opt" THEN (IF v.k = "null" THEN 0
+                                     ELSE IF Co(e, S, v.v, x.a, y.a).ok THEN NumSkipped(e, S, v.v, x.a, y.a) ELSE NumValues(v.v))
+            ELSE IF Co(e, S, v, t, y.a).ok THEN NumSkipped(e, S, v, t, y.a) ELSE NumValues(v)
+       [] x.k = "vec" /\ y.k = "vec" -> SumSeq([i \in DOMAIN v.vs |-> NumSkipped(e, S, v.vs[i], x.a, y.a)], 1)
+       [] x.k = "record" /\ y.k = "record" ->
+            SumSeq([j \in DOMAIN x.fs |-> IF x.fs[j].id \in FieldIds(y.fs) THEN NumSkipped(e, S, v.fs[j].v, x.fs[j].t, FieldTy(y.fs, x.fs[j].id)) ELSE NumValues(v.fs[j].v)], 1)
+       [] x.k = "variant" /\ y.k = "variant" /\ v.id \in FieldIds(y.fs) -> NumSkipped(e, S, v.v, FieldTy(x.fs, v.id), FieldTy(y.fs, v.id))
+       [] OTHER -> 0
 Max2(a, b) == IF a > b THEN a ELSE b
 \* C(v : t); H = header length in bytes (|type table| in the reference rules); labels are charged |k| <= 5
 RECURSIVE CDoc(_, _, _, _)
